@@ -123,6 +123,16 @@ impl<K: SimKey, S: HB> Subject for ArcSubj<K, S> {
             pub_is_empty: c.is_empty(),
         }
     }
+    fn iter_probe(&self, list: usize) -> Option<(Vec<(u32, u64)>, Vec<(u32, u64)>, usize)> {
+        let c = self.c.as_ref()?;
+        let cv = |(k, v): (&K, &TV)| (k.raw().0, v.val);
+        Some(match list {
+            0 => (lib!(c.recent_iter()).map(cv).collect(), lib!(c.recent_iter()).rev().map(cv).collect(), c.recent_len()),
+            1 => (lib!(c.frequent_iter()).map(cv).collect(), lib!(c.frequent_iter()).rev().map(cv).collect(), c.frequent_len()),
+            2 => (lib!(c.recent_evict_iter()).map(cv).collect(), lib!(c.recent_evict_iter()).rev().map(cv).collect(), c.recent_evict_len()),
+            _ => (lib!(c.frequent_evict_iter()).map(cv).collect(), lib!(c.frequent_evict_iter()).rev().map(cv).collect(), c.frequent_evict_len()),
+        })
+    }
     fn fork(&self) -> Option<Box<dyn Subject>> {
         None
     }
